@@ -81,6 +81,21 @@ def rand_call(h, orc, level):
     else:
         st = {'s': 'sb', 'f': f, 'args': args, 'catch': h.chance(orc.get('catch', 70))}
     st.update(extra)
+    if orc.get('catch_base') and st['catch'] and h.chance(orc['catch_base']):
+        st['catch_base'] = True          # this caller also stops exceptions outside the Exception hierarchy
+    return st
+
+
+FALSY_RETURNS = [{'k': 'tuple', 'xs': []}, {'k': 'dictS', 'kv': []}, {'k': 'listS', 'xs': []}, {'k': 'intS', 'n': '0'},
+                 {'k': 'strS', 's': ''}, {'k': 'tupleS', 'xs': []}, {'k': 'floatS', 'n': '0', 'r': '0.0'},
+                 {'k': 'list', 'xs': []}, {'k': 'int', 'n': '0'}]
+
+
+def _stamp(orc, h, st):
+    """Reproducible-build style functions: the output gets a fixed modification time (one of two), so that a
+    rebuilt output can have new bytes under the old size and time."""
+    if orc.get('fixed_mt') and h.chance(orc['fixed_mt']):
+        st['mt'] = 900 + h.below(2)
     return st
 
 
@@ -95,12 +110,15 @@ def oracle_stmt(orc, key, fr):
             return {'s': 'return'}
         if orc.get('nocreate2') and n >= maxn - 1 and h.chance(orc['nocreate2']):
             return {'s': 'return'}      # the function ends without ever trying to create its target
-        return {'s': 'write', 'c': h.pick(orc.get('contents', CONTENTS)), 'sz': h.pick(orc.get('sizes', SIZES))}
+        return _stamp(orc, h, {'s': 'write', 'c': h.pick(orc.get('contents', CONTENTS)), 'sz': h.pick(orc.get('sizes', SIZES))})
     if n >= maxn:
         if h.chance(orc.get('raise', 10)):
-            return {'s': 'raise'}
+            return {'s': 'raise', 'base': True} if orc.get('base_raise') and h.chance(orc['base_raise']) else {'s': 'raise'}
         if h.chance(orc.get('nonjson', 2)):
-            return {'s': 'return', 'nonjson': True}
+            return {'s': 'return', 'nonjson': 'empty' if orc.get('falsy_ret') and h.chance(40) else True}
+        if orc.get('falsy_ret') and h.chance(orc['falsy_ret']):
+            # empty / zero values that are not plain JSON values yet: they must come back normalised all the same
+            return {'s': 'return', 'v': h.pick(FALSY_RETURNS)}
         return {'s': 'return', 'container': True} if orc.get('mutate') else {'s': 'return'}
     if orc.get('p_probe') and h.chance(orc['p_probe']):
         return {'s': 'probe', 'paths': [h.pick(orc['qpaths']) for _ in range(3)]}
@@ -114,7 +132,7 @@ def oracle_stmt(orc, key, fr):
         return rand_query(h, orc)
     if r < 92:
         if fr.kind == 'bf' and not wrote:
-            return {'s': 'write', 'c': h.pick(orc.get('contents', CONTENTS)), 'sz': h.pick(orc.get('sizes', SIZES))}
+            return _stamp(orc, h, {'s': 'write', 'c': h.pick(orc.get('contents', CONTENTS)), 'sz': h.pick(orc.get('sizes', SIZES))})
         if orc.get('retpool'):
             return {'s': 'return', 'v': h.pick(orc['retpool'])}
         return {'s': 'return', 'container': True} if orc.get('mutate') else {'s': 'return'}
@@ -185,25 +203,25 @@ LONGT = [['LONG', 'x'], ['d', 'LONG', 'y'], ['g', 'h', 'LONG', 'w'], ['d', 'LONG
 PROFILES = {
     # name: parameters (see make_scenario)
     'general': {},
-    'crash': {'p_crash': 0.6, 'builds': [2, 3, 3], 'p_uncaught': 0.5, 'p_clean': 0.05},
+    'crash': {'p_crash': 0.6, 'builds': [2, 3, 3], 'p_uncaught': 0.5, 'p_clean': 0.05, 'p_base': 0.3, 'base_raise': 25},
     'foreign': {'foreign': True, 'p_crash': 0.3, 'p_clean': 0.3, 'ext': [1, 2, 3, 4]},
     'probe': {'p_probe': 0.5, 'p_crash': 0.05, 'raise': 25},
     'rebuild': {'p_same_root': 1.0, 'p_crash': 0.0, 'ext': [0, 0, 0, 1], 'builds': [3, 4], 'p_clean': 0.0,
                 'p_vers': 0.0},
     'versions': {'p_same_root': 0.9, 'p_crash': 0.0, 'ext': [0, 0, 0, 1], 'builds': [3, 4], 'p_clean': 0.0,
                  'p_vers': 0.8, 'maxstmts': [3, 4, 5]},
-    'bfcontract': {'long': True, 'p_probe': 0.4, 'raise': 30, 'nocreate': 25, 'nocreate2': 18, 'nonjson': 10,
+    'bfcontract': {'long': True, 'p_probe': 0.4, 'raise': 30, 'nocreate': 25, 'nocreate2': 18, 'nonjson': 10, 'falsy_ret': 15,
                    'p_crash': 0.1},
     # foreign files at build targets + external removal of directory trees + failing builds
     'forcrash': {'structured': True, 'foreign': True, 'foreign_at_targets': True, 'p_crash': 0.6, 'p_clean': 0.1,
                  'ext': [1, 2, 3], 'p_rmtree': 0.35, 'p_same_root': 0.85},
     'clean': {'p_clean': 0.6, 'p_double_clean': 0.5, 'p_crash': 0.15, 'foreign': True},
     'cmp': {'p_same_root': 0.9, 'ext_meta': True, 'ext': [1, 1, 2], 'p_crash': 0.0, 'p_clean': 0.0,
-            'w_read': True, 'builds': [3, 4]},
+            'w_read': True, 'builds': [3, 4], 'fixed_mt': 35},
     # read-back of outputs inside the subtree that built them, both modes, tampering of outputs
     'cmpback': {'p_same_root': 0.95, 'ext_meta': True, 'ext_leaves': True, 'ext': [1, 1, 2], 'p_crash': 0.0,
                 'p_clean': 0.0, 'w_read': True, 'q_leaves': True, 'builds': [3, 4], 'raise': 4, 'nocreate': 0,
-                'nonjson': 0, 'maxstmts': [3, 4, 5]},
+                'nonjson': 0, 'maxstmts': [3, 4, 5], 'fixed_mt': 35, 'sizes': [4]},
     # in-place mutation of every value that crosses the API (C11), then unchanged rebuilds
     'mutate': {'mutate': True, 'p_same_root': 1.0, 'p_crash': 0.0, 'ext': [0, 0, 0, 1], 'builds': [3, 4],
                'p_clean': 0.0, 'p_vers': 0.0, 'raise': 8, 'kinds': ['list_dir', 'walk', 'list_dir', 'is_file', 'read']},
@@ -222,7 +240,7 @@ PROFILES = {
     'threads': {'threads': True},
     'straggler': {'straggler': True},
     # C17: calls on builders whose function has ended (sequentially: inside later code of the build and after build returns)
-    'stale': {'stale': True, 'p_crash': 0.2, 'p_clean': 0.1, 'raise': 20, 'builds': [2, 3]},
+    'stale': {'stale': True, 'p_crash': 0.2, 'p_clean': 0.1, 'raise': 20, 'builds': [2, 3], 'base_raise': 35, 'catch_base': 80},
     'threaddup': {'threads': True, 'p_dup': 0.85},
     # threads that rebuild existing outputs (each moves an old output aside), often followed by a rollback
     'threadsrb': {'threads_rb': True},
@@ -360,7 +378,9 @@ def make_refuse(seed, profile):
                     steps.append({'op': call, 'name': 'B', 'vers': st.get('vers', {}), 'root': st.get('root', []),
                                   'bad': bad})
                 elif kind < 0.45:
-                    steps.append({'op': call, 'name': 'OTHER', 'vers': st.get('vers', {}), 'root': st.get('root', [])})
+                    # a different build name - the empty string and a case variant are names like any other
+                    steps.append({'op': call, 'name': rnd.choice(['OTHER', 'OTHER', '', 'b']), 'vers': st.get('vers', {}),
+                                  'root': st.get('root', [])})
                 else:
                     how = rnd.choice(CORRUPT)
                     steps.append({'op': 'ext', 'do': 'corrupt_cache', 'p': ['k'], 'how': how,
@@ -563,6 +583,27 @@ def make_threads_q(seed, profile):
             pool += [(own[:i], k) for i in range(1, len(own)) for k in ('exists', 'is_dir')] * 3
         p, k = rnd.choice(pool)
         return {'s': 'q', 'kind': k, 'p': p, 'td': rnd.random() < 0.5, 'cmp': rnd.choice(['METADATA', 'HASH'])}
+    if rnd.random() < 0.25:
+        # an output compared by HASH whose recorded input changed: the record is found, the old output is hashed
+        # and the call is executed after all - by one thread, while a second thread asks for the same file (a
+        # duplicate)
+        t = rnd.choice(THREAD_TARGETS)
+        prog['fH'] = [{'s': 'q', 'kind': 'read', 'p': ['z', 'f'], 'cmp': 'HASH', 'td': False, 'how': 'binary'},
+                      {'s': 'write', 'c': '@obs', 'sz': 4, 'mt': 700}, {'s': 'return'}]
+        call = {'s': 'bf', 'p': t, 'f': 'fH', 'args': [0], 'cmp': 'HASH'}
+        # (only a direct duplicate: a nested one inside a subbuild could not be placed in a sequential order of
+        # whole calls, and calls for one target are not independent in the sense of C09 anyway)
+        other = dict(call)
+        first = [dict(call, catch=True)]
+        par = {'s': 'par', 'branches': [dict(call), other], 'preempt': []}
+        steps = [{'op': 'ext', 'do': 'mkdir', 'p': ['z']}, {'op': 'ext', 'do': 'write', 'p': ['z', 'f'], 'c': 'c9', 'sz': 6},
+                 {'op': 'build', 'name': 'B', 'vers': {}, 'root': first + [{'s': 'return'}]},
+                 {'op': 'ext', 'do': 'write', 'p': ['z', 'f'], 'c': 'c8', 'sz': 6},
+                 {'op': 'build', 'name': 'B', 'vers': {}, 'root': [par, {'s': 'return'}]},
+                 {'op': 'build', 'name': 'B', 'vers': {}, 'root': [json.loads(json.dumps(par)), {'s': 'return'}]},
+                 {'op': 'clean', 'name': 'B'}]
+        return {'id': '%s-%d' % (profile, seed), 'cache': ['k'], 'universe': [], 'threads': True, 'prog': prog,
+                'steps': steps, 'combo': True}
     nb = rnd.choice([2, 2, 3])
     targets = rnd.sample(THREAD_TARGETS, nb)
     branches = []
@@ -786,6 +827,31 @@ def make_selfnest(seed, profile):
     rnd = random.Random('selfnest:%s' % seed)
     T = rnd.choice([['x'], ['d', 'y'], ['g', 'w'], ['d', 'e', 'z']])
     below = [T + ['c'], T + ['c', 'e'], T + ['k']]
+    if rnd.random() < 0.2:
+        # a target that failed inside a (cached) subbuild / build_file becomes a directory of outputs later in
+        # the same build; the next builds reuse the enclosing call, carry on or fail, and are rolled back
+        inner = {'s': 'bf', 'p': T, 'f': 'inR', 'args': [0], 'cmp': rnd.choice(['METADATA', 'HASH']), 'catch': True}
+        prog = {'inW': [{'s': 'write', 'c': 'c1', 'sz': 4}, {'s': 'return'}],
+                'inR': [{'s': 'write', 'c': 'c2', 'sz': 4}, {'s': 'raise'}],
+                'sS': [inner, {'s': 'return'}],
+                'bS': [inner, {'s': 'write', 'c': 'c3', 'sz': 4}, {'s': 'return'}]}
+        enc = rnd.choice([{'s': 'sb', 'f': 'sS', 'args': [1], 'catch': True},
+                          {'s': 'bf', 'p': ['q0'], 'f': 'bS', 'args': [1], 'cmp': 'HASH', 'catch': True}])
+        kids = [{'s': 'bf', 'p': b, 'f': 'inW', 'args': [i], 'cmp': 'METADATA', 'catch': True}
+                for i, b in enumerate(rnd.sample(below, rnd.choice([1, 2])))]
+        root1 = [enc] + kids + [{'s': 'return'}]
+        steps = [{'op': 'build', 'name': 'B', 'vers': {}, 'root': root1}]
+        for b in range(rnd.choice([1, 2])):
+            r = [dict(enc)] + ([dict(k) for k in kids] if rnd.random() < 0.6 else [])
+            if rnd.random() < 0.3:
+                r.reverse()
+            r.append({'s': 'raise'} if rnd.random() < 0.6 else {'s': 'return'})
+            steps.append({'op': 'build', 'name': 'B', 'vers': {}, 'root': r})
+        steps.append({'op': 'build', 'name': 'B', 'vers': {}, 'root': [dict(x) for x in root1]})
+        if rnd.random() < 0.5:
+            steps.append({'op': 'clean', 'name': 'B'})
+        universe = DIRS + LEAVES + [x for x in below if x not in LEAVES]
+        return {'id': '%s-%d' % (profile, seed), 'cache': ['k'], 'universe': universe, 'prog': prog, 'steps': steps}
     def q():
         return {'s': 'q', 'kind': rnd.choice(['exists', 'is_file', 'is_dir', 'list_dir', 'get_size', 'walk']),
                 'p': rnd.choice([T, T[:-1], below[0], below[1]]), 'td': False}
@@ -922,7 +988,9 @@ def make_scenario(seed, profile='general'):
     if P.get('structured') and seed % 2 == 1:
         return make_structured(seed, profile)
     rnd = random.Random('%s:%s' % (profile, seed))
-    cache = ['c', 'k'] if P.get('subcache') else ['k']
+    cache = ['k']
+    if P.get('subcache'):         # one or two directory levels that the build has to create for the cache file
+        cache = ['c', 'c2', 'k'] if seed % 3 == 0 else ['c', 'k']
     qpaths = list(UNIVERSE)
     targets = list(LEAVES)
     if P.get('foreign'):
@@ -938,7 +1006,8 @@ def make_scenario(seed, profile='general'):
         'maxstmts': rnd.choice(P.get('maxstmts', [2, 3, 4, 5])),
         'nargs': 2,
         'raise': P.get('raise', 10), 'nocreate': P.get('nocreate', 6), 'nonjson': P.get('nonjson', 2),
-        'nocreate2': P.get('nocreate2', 0),
+        'nocreate2': P.get('nocreate2', 0), 'fixed_mt': P.get('fixed_mt', 0), 'sizes': P.get('sizes', SIZES),
+        'falsy_ret': P.get('falsy_ret', 0), 'base_raise': P.get('base_raise', 0), 'catch_base': P.get('catch_base', 0),
         'p_probe': int(100 * P.get('p_probe', 0) / 4),
     }
     if P.get('exotic'):
@@ -1018,6 +1087,8 @@ def make_scenario(seed, profile='general'):
             body = [st for st in root if st['s'] != 'return']
             k = rnd.randrange(len(body) + 1)
             root = body[:k] + [{'s': 'raise'}]
+            if P.get('p_base') and rnd.random() < P['p_base']:
+                root[-1]['base'] = True         # KeyboardInterrupt-like: not an Exception
         vers = dict(vers)
         if rnd.random() < P.get('p_vers', 0.25):
             f = rnd.choice(['f0a', 'f0b', 'f1a', 'f1b', 'f2a'])
